@@ -727,6 +727,285 @@ theorem stringFromBinary_eq_hexDump (bs : Bytes) : stringFromBinary bs = DiagSpe
     rw [List.take_append_of_le_length (by omega)]
     exact List.take_of_length_le (by omega)
 
+/-! ### the user text, and the classes without operands -/
+
+theorem userText_empty : userText [] = [] := rfl
+
+/-- `createUserText`: nothing for an empty text; otherwise `Message: ` (not when the text starts with
+    `LONGS_EQUAL`), the text as given (any bytes, several lines), then `\n\t` -/
+theorem userText_spec (text : Bytes) (h : text ≠ []) :
+    userText text = (if userTextException.isPrefixOf text then [] else userTextPrefix) ++ text ++ userTextSeparator := by
+  cases text with
+  | nil => exact absurd rfl h
+  | cons x xs => simp [userText]
+
+theorem userText_literals :
+    userTextPrefix = [77, 101, 115, 115, 97, 103, 101, 58, 32] ∧ userTextSeparator = [10, 9]
+    ∧ userTextException = [76, 79, 78, 71, 83, 95, 69, 81, 85, 65, 76] := by decide
+
+theorem userText_shows_text (text : Bytes) : text <:+: userText text := by
+  cases text with
+  | nil => exact ⟨[], [], rfl⟩
+  | cons x xs => rw [userText_spec _ (by simp)]; exact ⟨_, _, rfl⟩
+
+/-- every class that takes a user text starts its message with `createUserText(text)` -/
+theorem classes_start_with_user_text (text : Bytes) :
+    (∀ e a, userText text <+: equalsFailure e a text)
+    ∧ (∀ e a, userText text <+: equalsFailureSS e a text)
+    ∧ (∀ es as ts nan, userText text <+: doublesEqualFailure es as ts nan text)
+    ∧ (∀ c d, userText text <+: checkFailure c d text)
+    ∧ (∀ e a, userText text <+: containsFailure e a text)
+    ∧ (∀ n, userText text <+: featureUnsupportedFailure n text)
+    ∧ (∀ e a, userText text <+: longsEqualFailure e a text)
+    ∧ (∀ e a, userText text <+: unsignedLongsEqualFailure e a text)
+    ∧ (∀ e a, userText text <+: signedBytesEqualFailure e a text)
+    ∧ (∀ e a m bc, userText text <+: bitsEqualFailure e a m bc text) := by
+  refine ⟨?_, ?_, ?_, ?_, ?_, ?_, ?_, ?_, ?_, ?_⟩ <;> intros
+  · exact ⟨_, rfl⟩
+  · exact ⟨_, rfl⟩
+  · unfold doublesEqualFailure; simp only [List.append_assoc]; exact List.prefix_append _ _
+  · unfold checkFailure; simp only [List.append_assoc]; exact List.prefix_append _ _
+  · exact ⟨_, rfl⟩
+  · exact ⟨_, rfl⟩
+  · exact ⟨_, rfl⟩
+  · exact ⟨_, rfl⟩
+  · exact ⟨_, rfl⟩
+  · exact ⟨_, rfl⟩
+
+/-- the same for the classes whose builder scans the operands -/
+theorem scanning_classes_start_with_user_text (text msg : Bytes) :
+    (∀ f e a, stringEqualFailureBy f e a text = .ok msg → userText text <+: msg)
+    ∧ (∀ e a, checkEqualFailure e a text = .ok msg → userText text <+: msg)
+    ∧ (∀ e a size, binaryEqualFailure e a size text = .ok msg → userText text <+: msg) := by
+  refine ⟨?_, ?_, ?_⟩
+  · intro f e a h
+    unfold stringEqualFailureBy at h
+    split at h
+    · split at h
+      · exact absurd h (by simp)
+      · injection h with h; subst h; simp only [List.append_assoc]; exact List.prefix_append _ _
+    · injection h with h; subst h; exact ⟨_, rfl⟩
+  · intro e a h
+    unfold checkEqualFailure at h
+    split at h
+    · exact absurd h (by simp)
+    · injection h with h; subst h; simp only [List.append_assoc]; exact List.prefix_append _ _
+  · intro e a size h
+    unfold binaryEqualFailure at h
+    split at h
+    · split at h
+      · split at h
+        · injection h with h; subst h; simp only [List.append_assoc]; exact List.prefix_append _ _
+        · exact absurd h (by simp)
+      · injection h with h; subst h; exact ⟨_, rfl⟩
+    · exact absurd h (by simp)
+    · exact absurd h (by simp)
+
+set_option maxRecDepth 100000 in
+/-- `ComparisonFailure` / `CheckFailure` with a user text: exact message -/
+theorem check_message_eq (c d text : Bytes) :
+    checkFailure c d text = userText text ++ c ++ [40] ++ d ++ [41, 32, 102, 97, 105, 108, 101, 100] := rfl
+
+set_option maxRecDepth 100000 in
+/-- `FeatureUnsupportedFailure`: exact message -/
+theorem feature_message_eq (name text : Bytes) :
+    featureUnsupportedFailure name text = userText text
+      ++ [84, 104, 101, 32, 102, 101, 97, 116, 117, 114, 101, 32, 34] ++ name
+      ++ (render featureFmt [.str []]).drop 13 := by
+  simp [featureUnsupportedFailure, featureFmt, render, renderOne]
+
+set_option maxRecDepth 100000 in
+/-- `UnexpectedExceptionFailure(test, e)`: `Unexpected exception of type '<type>' was thrown: <what()>`
+    — shows the type name and the exception's text, both as given (inputs of the model) -/
+theorem unexpectedException_shows_both (typeName what : Bytes) :
+    unexpectedException typeName what =
+      [85, 110, 101, 120, 112, 101, 99, 116, 101, 100, 32, 101, 120, 99, 101, 112, 116, 105, 111, 110, 32, 111, 102, 32, 116, 121, 112, 101, 32, 39]
+      ++ typeName ++ [39, 32, 119, 97, 115, 32, 116, 104, 114, 111, 119, 110, 58, 32] ++ what
+    ∧ typeName <:+: unexpectedException typeName what ∧ what <:+: unexpectedException typeName what := by
+  have h : unexpectedException typeName what =
+      [85, 110, 101, 120, 112, 101, 99, 116, 101, 100, 32, 101, 120, 99, 101, 112, 116, 105, 111, 110, 32, 111, 102, 32, 116, 121, 112, 101, 32, 39]
+      ++ typeName ++ [39, 32, 119, 97, 115, 32, 116, 104, 114, 111, 119, 110, 58, 32] ++ what := by
+    simp [unexpectedException, excFmt, render, renderOne]
+  refine ⟨h, ?_, ?_⟩
+  · rw [h]; exact ⟨[85, 110, 101, 120, 112, 101, 99, 116, 101, 100, 32, 101, 120, 99, 101, 112, 116, 105, 111, 110, 32, 111, 102, 32, 116, 121, 112, 101, 32, 39],
+      [39, 32, 119, 97, 115, 32, 116, 104, 114, 111, 119, 110, 58, 32] ++ what, by simp only [List.append_assoc]⟩
+  · rw [h]; exact ⟨[85, 110, 101, 120, 112, 101, 99, 116, 101, 100, 32, 101, 120, 99, 101, 112, 116, 105, 111, 110, 32, 111, 102, 32, 116, 121, 112, 101, 32, 39]
+      ++ typeName ++ [39, 32, 119, 97, 115, 32, 116, 104, 114, 111, 119, 110, 58, 32], [], by simp only [List.append_nil]⟩
+
+set_option maxRecDepth 100000 in
+/-- `UnexpectedExceptionFailure(test)` and the message-less `TestFailure`: fixed texts -/
+theorem fixed_messages :
+    unexpectedExceptionUnknown = [85, 110, 101, 120, 112, 101, 99, 116, 101, 100, 32, 101, 120, 99, 101, 112, 116, 105, 111, 110, 32, 111, 102, 32, 117, 110, 107, 110, 111, 119, 110, 32, 116, 121, 112, 101, 32, 119, 97, 115, 32, 116, 104, 114, 111, 119, 110, 46] ∧
+    baseFailureNoMessage = [110, 111, 32, 109, 101, 115, 115, 97, 103, 101] := by
+  decide
+
+theorem baseFailure_shows_message (m : Bytes) : baseFailure m = m := rfl
+
+/-! ### the three misuse messages -/
+
+/-- the complete text one misuse report tries to append -/
+def misuseText (m : Misuse) : Bytes :=
+  m.message ++ allocLocationText m.allocFile m.allocLine m.allocSize m.allocName
+  ++ deallocLocationText m.freeFile m.freeLine m.freeName
+
+/-- `reportAllocationDeallocationMismatchFailure` -/
+def mismatchMisuse (allocFile : Bytes) (allocLine allocSize : Nat) (allocName freeFile : Bytes) (freeLine : Nat) (freeName : Bytes) : Misuse :=
+  { message := msgMismatch, allocFile := allocFile, allocLine := allocLine, allocSize := allocSize, allocName := allocName,
+    freeFile := freeFile, freeLine := freeLine, freeName := freeName }
+
+/-- `reportMemoryCorruptionFailure` -/
+def corruptionMisuse (allocFile : Bytes) (allocLine allocSize : Nat) (allocName freeFile : Bytes) (freeLine : Nat) (freeName : Bytes) : Misuse :=
+  { mismatchMisuse allocFile allocLine allocSize allocName freeFile freeLine freeName with message := msgCorruption }
+
+set_option maxRecDepth 100000 in
+/-- exact rendering of a misuse message as a function of (message, allocation file/line/size/allocator
+    name, release file/line/allocator name): line numbers go through `(int)` (see `castInt32_*`),
+    the size through `%lu`, names and files through `%s` as they are -/
+theorem misuseText_eq (m : Misuse) :
+    misuseText m = m.message
+      ++ [32, 32, 32, 97, 108, 108, 111, 99, 97, 116, 101, 100, 32, 97, 116, 32, 102, 105, 108, 101, 58, 32] ++ m.allocFile
+      ++ [32, 108, 105, 110, 101, 58, 32] ++ decInt (castInt32 m.allocLine)
+      ++ [32, 115, 105, 122, 101, 58, 32] ++ decNat m.allocSize
+      ++ [32, 116, 121, 112, 101, 58, 32] ++ m.allocName ++ [10]
+      ++ [32, 32, 32, 100, 101, 97, 108, 108, 111, 99, 97, 116, 101, 100, 32, 97, 116, 32, 102, 105, 108, 101, 58, 32] ++ m.freeFile
+      ++ [32, 108, 105, 110, 101, 58, 32] ++ decInt (castInt32 m.freeLine)
+      ++ [32, 116, 121, 112, 101, 58, 32] ++ m.freeName ++ [10] := by
+  simp [misuseText, allocLocationText, deallocLocationText, allocLocationFmt, deallocLocationFmt, render, renderOne]
+
+set_option maxRecDepth 100000 in
+/-- the three kinds: their message lines, and what "non-allocated" reports as the allocation
+    (`<unknown>`, line 0, size 0, the null allocator's name) -/
+theorem misuse_kinds :
+    msgNonAllocated = [68, 101, 97, 108, 108, 111, 99, 97, 116, 105, 110, 103, 32, 110, 111, 110, 45, 97, 108, 108, 111, 99, 97, 116, 101, 100, 32, 109, 101, 109, 111, 114, 121, 10]
+    ∧ msgMismatch = [65, 108, 108, 111, 99, 97, 116, 105, 111, 110, 47, 100, 101, 97, 108, 108, 111, 99, 97, 116, 105, 111, 110, 32, 116, 121, 112, 101, 32, 109, 105, 115, 109, 97, 116, 99, 104, 10]
+    ∧ msgCorruption = [77, 101, 109, 111, 114, 121, 32, 99, 111, 114, 114, 117, 112, 116, 105, 111, 110, 32, 40, 119, 114, 105, 116, 116, 101, 110, 32, 111, 117, 116, 32, 111, 102, 32, 98, 111, 117, 110, 100, 115, 63, 41, 10]
+    ∧ nonAllocatedFile = [60, 117, 110, 107, 110, 111, 119, 110, 62] ∧ nonAllocatedLine = 0 ∧ nonAllocatedSize = 0
+    ∧ noLocation = ([60, 117, 110, 107, 110, 111, 119, 110, 62], 0) := by
+  decide
+
+/-- `(int) line`: a line number below 2^31 is printed as it is … -/
+theorem castInt32_small (n : Nat) (h : n < 2147483648) : castInt32 n = (n : Int) := by
+  have h1 : n % 4294967296 = n := Nat.mod_eq_of_lt (by omega)
+  simp [castInt32, h1, h]
+
+/-- … one in [2^31, 2^32) comes out negative (`n - 2^32`) … -/
+theorem castInt32_wrap (n : Nat) (h1 : 2147483648 ≤ n) (h2 : n < 4294967296) : castInt32 n = (n : Int) - 4294967296 := by
+  have hm : n % 4294967296 = n := Nat.mod_eq_of_lt h2
+  have : ¬ (n < 2147483648) := by omega
+  simp [castInt32, hm, this]
+
+/-- … and only the low 32 bits count (observation about the code, outside the property) -/
+theorem castInt32_periodic (n : Nat) : castInt32 (n + 4294967296) = castInt32 n := by
+  simp [castInt32, Nat.add_mod_right]
+
+/-- one misuse report appends the part of its text that fits below the write limit — whatever the
+    length of the file names — and leaves the buffer invariant intact -/
+theorem misuse_bounded (o : OutBuf) (m : Misuse) (h : o.buf.WF) :
+    (o.reportFailure m).buf.text = o.buf.text ++ (misuseText m).take (o.buf.limit - o.buf.filled)
+    ∧ (o.reportFailure m).buf.WF
+    ∧ (o.reportFailure m).buf.text.length ≤ bufferLen - 1 := by
+  have e : (o.reportFailure m).buf = o.buf.add (misuseText m) := by
+    simp only [OutBuf.reportFailure, misuseText, Buf.add_add, List.append_assoc]
+  have hw : (o.reportFailure m).buf.WF := by rw [e]; exact Buf.wf_add _ _ h
+  refine ⟨by rw [e, Buf.add_text], hw, ?_⟩
+  obtain ⟨h1, _, h3⟩ := hw
+  rw [h3]; exact h1
+
+/-- a misuse report on a fresh or cleared buffer whose text fits: the reporter gets the complete text -/
+theorem misuse_complete_when_it_fits (o : OutBuf) (m : Misuse) (hf : o.buf.filled = 0) (ht : o.buf.text = [])
+    (hfit : (misuseText m).length ≤ o.buf.limit) : (o.reportFailure m).buf.text = misuseText m := by
+  have e : (o.reportFailure m).buf = o.buf.add (misuseText m) := by
+    simp only [OutBuf.reportFailure, misuseText, Buf.add_add, List.append_assoc]
+  rw [e, (Buf.add_fits o.buf (misuseText m) (by omega)).1, ht]; rfl
+
+/-! ### the memory dump and the reads of leaked memory -/
+
+/-- `addMemoryDump` for ANY size and content: the dump is cut at the write limit (and the buffer
+    invariant holds; termination in the real array is `history_memory_safe` / `dump_memory_safe`) -/
+theorem dump_cut_at_limit (b : Buf) (content : Bytes) (h : b.WF) :
+    (b.addMemoryDump content).text = b.text ++ (dumpText content).take (b.limit - b.filled)
+    ∧ (b.addMemoryDump content).WF := by
+  rw [Buf.addMemoryDump_eq]; exact ⟨Buf.add_text _ _, Buf.wf_add _ _ h⟩
+
+/-- the same on the real array: after the `add` calls of a dump of any size the text is terminated
+    at the fill position, the canary is untouched, nothing was stored outside the array -/
+theorem dump_memory_safe (mb : MemBuf) (content : Bytes) (h : mb.WF) :
+    (((dumpPieces content.length 0 content).map BOp.add).foldl MemBuf.step mb).WF
+    ∧ (((dumpPieces content.length 0 content).map BOp.add).foldl MemBuf.step mb).abs = mb.abs.addMemoryDump content := by
+  obtain ⟨h1, h2⟩ := mem_run_refines ((dumpPieces content.length 0 content).map BOp.add) mb h
+  refine ⟨h1, ?_⟩
+  rw [h2, List.foldl_map]; rfl
+
+/-- `addMemoryDump(memory, size)` reads `memory[i]` only for `i < size`: on a block of EXACTLY `size`
+    bytes no read is out of bounds, and the pieces are those of the `size` bytes -/
+theorem dump_reads_in_bounds (mem : Bytes) :
+    dumpPiecesRd mem.length mem.length mem 0 = .ok (dumpPieces mem.length 0 mem) := by
+  have := dumpPiecesRd_spec mem.length mem (Nat.le_refl _) mem.length 0
+  simpa using this
+
+/-- `report()` is memory-safe under the caller-side contract that every block in the table is
+    still allocated (at least `size_` readable bytes): no read outside a block, and the result is the
+    abstract report over the blocks' first `size_` bytes -/
+theorem report_memory_safe (o : OutBuf) (leaks : List LeakRef) (h : ∀ l ∈ leaks, l.Live) :
+    o.reportRd leaks = .ok (o.report (leaks.map LeakRef.toLeak)) := by
+  unfold OutBuf.reportRd OutBuf.report
+  rw [reportLeaksRd_spec leaks o.start h]
+
+/-- the contract is needed: a block freed behind the detector's back is read by the dump -/
+example : (OutBuf.init.reportRd [{ number := 1, size := 1, file := [], line := 0, allocName := [], ptr := [], block := none }]) = .error .oob := by
+  rfl
+
+/-! ### after a report without leaks (the lowered limit stays in force) -/
+
+theorem reportFailure_buf (o : OutBuf) (m : Misuse) : (o.reportFailure m).buf = o.buf.add (misuseText m) := by
+  simp only [OutBuf.reportFailure, misuseText, Buf.add_add, List.append_assoc]
+
+theorem setWriteLimit_filled (b : Buf) (n : Nat) : (b.setWriteLimit n).filled = b.filled := rfl
+theorem setWriteLimit_text (b : Buf) (n : Nat) : (b.setWriteLimit n).text = b.text := rfl
+
+theorem add_two_on_cleared (b : Buf) (s t : Bytes) (L : Nat) (hf : b.filled = 0) (ht : b.text = []) (hl : b.limit = L)
+    (hfit : s.length ≤ L) : ((b.add s).add t).text = s ++ t.take (L - s.length) := by
+  obtain ⟨a1, a2, a3⟩ := Buf.add_fits b s (by omega)
+  rw [Buf.add_text, a1, a2, a3, ht, hf, hl]
+  simp only [List.nil_append, Nat.zero_add]
+
+set_option maxRecDepth 100000 in
+theorem report_empty_buf (o : OutBuf) : (o.report []).buf = (o.buf.setWriteLimit listLimitArg).add noLeaksText := by
+  unfold OutBuf.report OutBuf.stop
+  simp only [List.foldl_nil]
+  have h0 : o.start.total = 0 := rfl
+  simp only [h0, if_true]
+  simp only [OutBuf.start, noLeaksText]
+
+set_option maxRecDepth 100000 in
+theorem setWriteLimit_listLimit (b : Buf) : (b.setWriteLimit listLimitArg).limit = listLimit := by
+  obtain ⟨_, hla, hlc⟩ := reserve_no_wrap
+  have : ¬ (listLimit > cap) := by omega
+  simp [Buf.setWriteLimit, hla, this]
+
+/-- a misuse message after a zero-leak report on a cleared buffer: it is appended behind the
+    no-leaks message, completely if it fits below the (still lowered) listing limit, cut there otherwise -/
+theorem misuse_after_empty_report (o : OutBuf) (m : Misuse) (hf : o.buf.filled = 0) (ht : o.buf.text = []) :
+    ((o.report []).reportFailure m).buf.text = noLeaksText ++ (misuseText m).take (listLimit - noLeaksText.length)
+    ∧ (noLeaksText.length + (misuseText m).length ≤ listLimit →
+        ((o.report []).reportFailure m).buf.text = noLeaksText ++ misuseText m) := by
+  have key : ((o.report []).reportFailure m).buf.text = noLeaksText ++ (misuseText m).take (listLimit - noLeaksText.length) := by
+    rw [reportFailure_buf, report_empty_buf]
+    exact add_two_on_cleared _ _ _ _ (by rw [setWriteLimit_filled]; exact hf) (by rw [setWriteLimit_text]; exact ht)
+      (setWriteLimit_listLimit _) noLeaks_fits
+  refine ⟨key, ?_⟩
+  intro hle
+  rw [key]
+  generalize listLimit = L at hle ⊢
+  generalize noLeaksText = s at hle ⊢
+  rw [List.take_of_length_le (by omega)]
+
+/-- a report begun on a cleared buffer is the same whatever happened before — in particular after
+    a zero-leak report that left the limit lowered, and after misuse messages written under that limit -/
+theorem report_after_empty_report (o : OutBuf) (ms : List Misuse) (leaks : List Leak) (hn : leaks.length < 2147483648) :
+    ((ms.foldl OutBuf.reportFailure (o.report [])).clear.report leaks).buf.text = reportText leaks :=
+  report_total_true_when_cleared _ leaks rfl rfl hn
+
 /-! ## non-vacuity: concrete states that meet the hypotheses -/
 
 /-- the old overrun witness `STRCMP_EQUAL("\\n", "\n")` (equal printable forms): both scans end in bounds -/
